@@ -161,13 +161,13 @@ func MergeErrorsWithContext(ctx context.Context, cs ...<-chan error) <-chan erro
 	wg.Add(len(cs))
 	for _, c := range cs {
 		go func(c <-chan error) {
-			// We always wait for the stage to report, even when the context
-			// is already cancelled: every stage observes the context and
-			// reports promptly, and the caller relies on all stages having
-			// stopped once the merged error arrives, e.g. before rolling
-			// back the transaction they write to.
-			if err := <-c; err != nil {
-				cancel(err)
+			select {
+			case <-ctx.Done():
+				cancel(ctx.Err())
+			case err := <-c:
+				if err != nil {
+					cancel(err)
+				}
 			}
 			wg.Done()
 		}(c)
